@@ -8,12 +8,15 @@ using namespace rx;
 struct Outcome { std::string key, msg; rp::Verdict ref; bool collision = false; };
 
 // raw: de-framed octets; guaranteed: the caller knows this is a corruption that the checksums/size rule must catch
-inline Outcome judge(bool serial, bool mem16, const Bytes &raw, bool guaranteed, size_t slack = 64) {
+// mode 0: the frame fits into the receive block; 1: the block is one octet too small for it; 2: the block allocation fails
+inline Outcome judge(bool serial, bool mem16, const Bytes &raw, bool guaranteed, size_t slack = 64, int mode = 0) {
     Outcome o;
     rp::Frame ref;
     o.ref = rp::decode(raw, ref);
     size_t block = frame_struct_size() + raw.size() + slack;
+    if (mode == 1) block = frame_struct_size() + raw.size() - 1;
     Session S(serial, mem16, block, true, true, rp::on_wire(serial, raw));
+    if (mode == 2) S.led.failmask = 1;
     be().reset();
     RPMaybeFrame mf; memset(&mf, 0, sizeof mf);
     int rr = regp_recv(&S.p, &mf);
@@ -31,6 +34,16 @@ inline Outcome judge(bool serial, bool mem16, const Bytes &raw, bool guaranteed,
     if (!split_ok) return fail("reply-not-framed", "reply octets are not well-formed frames");
     bool acked = false;
     for (auto &r : replies) if (r.is_response() && r.meta == rp::C_ACK) acked = true;
+    if (mode != 0) {
+        // the frame could not be stored: never executed, never acknowledged - and a header fault is still reported as one (nothing of a
+        // damaged header is mirrored in a busy / overflow response)
+        if (calls) return fail("not-stored:executed", "a frame that could not be stored reached the memory back-end");
+        if (acked) return fail("not-stored:acknowledged", "a frame that could not be stored was acknowledged");
+        bool parseable = mode == 2 || raw.size() - 1 >= 16;
+        if (parseable && o.ref == rp::V_BAD_HDCRC && !(replies.size() == 1 && replies[0].type == rp::META && replies[0].meta == 2)) return fail("not-stored:bad-header-checksum-not-reported", vp::fmt("mode %d: header checksum does not match but the reply is not the header-checksum meta message", mode));
+        if (parseable && o.ref == rp::V_BAD_HEADER && raw.size() >= 12 && !(replies.size() == 1 && replies[0].type == rp::META && replies[0].meta == 1)) return fail("not-stored:bad-header-encoding-not-reported", vp::fmt("mode %d: header does not parse but the reply is not the header-encoding meta message", mode));
+        return o;
+    }
     if (o.ref == rp::V_DONTCARE) return o;
     if (o.ref == rp::V_OK) {
         if (guaranteed) { o.collision = true; return o; }     // the corruption produced another valid frame: the reference is the judge, nothing to assert
